@@ -697,6 +697,59 @@ fn unit_bodies() -> Vec<Block> {
     out
 }
 
+// ---- the examinee of a match is evaluated once ------------------------------
+// (seeded change C08-7, the third independent rediscovery of C02-6 / C03-7: a matched
+// local used in place). A failing guard assigns to the matched variable; the arms after
+// it hand their bindings to host calls and use them in their own guards.
+
+fn examinee_bodies() -> Vec<Block> {
+    let i = Ty::Int(I32);
+    let lit = |v: i128| E::Int(v, None, I32);
+    let emit = |x: E| E::Host("emit_i32".into(), vec![x]);
+    let some = |x: E| E::Ctor("Option".into(), "Some".into(), vec![x]);
+    let none = || E::Ctor("Option".into(), "None".into(), vec![]);
+    let mut out = vec![];
+    for new_value in [some(bin(BinOp::Add, em(), lit(50))), none()] {
+        for wildcard_first in [false, true] {
+            // guard: assigns to the examinee, then an input-driven marker decides
+            let guard = E::Block(blk(vec![S::Expr(E::Assign(vec!["x".into()], Box::new(new_value.clone())))], Some(ebm(1))));
+            let first = if wildcard_first {
+                Arm { variant: None, binds: vec![], guard: Some(guard), body: blk(vec![S::Expr(em())], None) }
+            } else {
+                Arm { variant: Some("Some".into()), binds: vec!["y".into()], guard: Some(guard), body: blk(vec![S::Expr(emit(var("y")))], None) }
+            };
+            let arms = vec![
+                first,
+                // a later guard reads its binding
+                Arm {
+                    variant: Some("Some".into()),
+                    binds: vec!["y".into()],
+                    guard: Some(bin(BinOp::And, bin(BinOp::Gt, var("y"), lit(40)), ebm(2))),
+                    body: blk(vec![S::Expr(emit(var("y"))), S::Expr(em())], None),
+                },
+                Arm { variant: Some("Some".into()), binds: vec!["z".into()], guard: None, body: blk(vec![S::Expr(emit(var("z")))], None) },
+                Arm { variant: Some("None".into()), binds: vec![], guard: None, body: blk(vec![S::Expr(em())], None) },
+            ];
+            out.push(blk(
+                vec![
+                    S::Let("x".into(), Some(Ty::Opt(Box::new(i.clone()))), E::Call("opt".into(), vec![ebm(0), em()])),
+                    S::Expr(E::Match(Box::new(var("x")), arms)),
+                    // what the variable holds afterwards
+                    S::Expr(E::Match(
+                        Box::new(var("x")),
+                        vec![
+                            Arm { variant: Some("Some".into()), binds: vec!["w".into()], guard: None, body: blk(vec![S::Expr(emit(var("w")))], None) },
+                            Arm { variant: Some("None".into()), binds: vec![], guard: None, body: blk(vec![S::Expr(emit(lit(0 - 1 + 1)))], None) },
+                        ],
+                    )),
+                ],
+                Some(em()),
+            ));
+        }
+    }
+    out
+}
+
 pub fn entry(name: &str, body: Block) -> Func {
     Func {
         name: name.into(),
@@ -721,6 +774,7 @@ pub fn all_bodies(tier: Tier) -> Vec<Block> {
         out.push(blk(b, Some(E::Int(0, None, I32))));
     }
     out.extend(unit_bodies());
+    out.extend(examinee_bodies());
     for b in &mut out {
         let mut k = 0;
         number_block(b, &mut k);
